@@ -96,7 +96,7 @@ Definition finalize_mod (e : env) (fault : option (nat * errno)) (m : hmode) (p 
         (* lchown, fchmod, futimens, rename — in the order of the source *)
         let '(s1, r1) := issue e fault (OLchown t (i_uid meta) (i_gid meta)) s in
         match r1 with
-        | Some EPERM | None =>
+        | Some EPERM | Some EACCES | None =>     (* io::ErrorKind::PermissionDenied is tolerated *)
             step e fault t o (OFchmod fo (i_mode meta)) s1 (fun s2 =>
             step e fault t o (OFutimens fo (i_mtime meta)) s2 (fun s3 =>
             step e fault t o (ORename t p) s3 (fun s4 => (s4, Some Replaced))))
@@ -115,10 +115,11 @@ Definition finalize_mod (e : env) (fault : option (nat * errno)) (m : hmode) (p 
   end.
 
 (* One handler applied to path p.
-   [eager]: the handler opens its output before it knows whether anything changes (ar, zip, javadoc);
+   [eager x]: on content x the handler opens its output before it knows whether anything changes
+   (ar after the global magic, zip after the central directory was read, javadoc always; gzip and pyc never);
    [res]: what the byte-level model of the handler computes from the file's content.
    Result: final simulation state and the ProcessResult (None = the process panicked). *)
-Definition run_handler (e : env) (fault : option (nat * errno)) (m : hmode) (prof : profile) (eager : bool)
+Definition run_handler (e : env) (fault : option (nat * errno)) (m : hmode) (prof : profile) (eager : bytes -> bool)
            (handler : bytes -> outcome (bytes * bool)) (p : path) (s : sim) : sim * option presult :=
   let t := tmp_path p in
   let '(s1, r1) := issue e fault (OOpenRead p) s in
@@ -143,7 +144,7 @@ Definition run_handler (e : env) (fault : option (nat * errno)) (m : hmode) (pro
             | _ => finalize_mod e fault m p t meta o y s3
             end
         end in
-      if eager then
+      if eager (i_data meta) then
         match open_output e fault m t s2 with
         | (s3, Some o) => after_open o s3
         | (s3, None) => (s3, Some Error)
